@@ -30,6 +30,9 @@ ufunc('cp_name', ['Str'], 'Str')
 axiom('cp-injective',
       'forall(lambda a, b: cp_parent(cp(a, b)) == a and cp_name(cp(a, b)) == b, "Str", "Str", pat=cp(a, b))',
       note="'/'.join of znode names (which cannot contain '/') is injective: parent and name are functions of the path")
+axiom('placement-root-not-grandchild',
+      'forall(lambda x, y: cp(cp("/placement", x), y) != "/placement", "Str", "Str", pat=cp(cp("/placement", x), y))',
+      note="'/placement/<x>/<y>' is not the string '/placement'")
 axiom('placement-root-not-child', 'forall(lambda x: cp("/placement", x) != "/placement", "Str", pat=cp("/placement", x))',
       note="'/placement/<x>' is not the string '/placement'")
 
@@ -92,10 +95,11 @@ contract(S + ':Node.members', types={'return': 'Dict[Name,Server]'},
          assumed=True, note='the name -> server map of the tree leaves (C01: Cell.members)')
 contract(MS + '._update_task', types={'appname': 'Name', 'server': 'Opt[Name]', 'why': 'Any'}, assumed=True,
          note='posts a trace event file (trace.post); no effect on the model or on /placement')
-contract(MS + '._save_placement', types={'placement': PLC},
-         ensures=['forall(lambda s, a: zk_same(pl(s, a)), "Name", "Name")'],
-         modifies=['zk'], assumed=True,
-         note='writes the compressed reference copy to the node /placement itself; no /placement/<server>/<instance> entry changes')
+contract('lib:json.dumps', types={'$params': ['obj'], 'obj': PLC, 'return': 'Any'}, assumed=True, note='serialisation: a token')
+contract('lib:zlib.compress', types={'$params': ['data'], 'data': 'Any', 'return': 'Any'}, assumed=True, note='compression: a token')
+contract(MS + '._save_placement', types={'placement': PLC, 'placement_data': 'Any', 'placement_zdata': 'Any'},
+         ensures=[('C09,C10', 'forall(lambda s, a: zk_same(pl(s, a)), "Name", "Name")', 'entries_untouched')],
+         modifies=['zk'], props=['C09', 'C10'])
 
 
 # ------------------------------------------------------------------ the payload
